@@ -1,0 +1,13 @@
+//go:build verif
+// +build verif
+
+package jsonata
+
+import "github.com/blues/jsonata-go/jparse"
+
+// VerifNode returns the root of the parsed tree that all evaluations of e
+// share. It exists only in builds with the "verif" tag and is used by the
+// verification harness to compare the tree before and after Eval.
+func (e *Expr) VerifNode() jparse.Node {
+	return e.node
+}
